@@ -119,7 +119,7 @@ theorem verdictR_isMirror : ∀ (r : List SLayer) (m : List RLayer), isMirror r 
       case dot3.dot3 s d rd rs l =>
         simp only [isMirror, Bool.and_eq_true] at h
         simp [verdictR, field, h.1.1, h.1.2, verdictR_isMirror r m' h.2]
-      case vlan.vlan tci t =>
+      case vlan.vlan tci tp t =>
         simp only [isMirror, Bool.and_eq_true] at h
         simp [verdictR, field, h.1, verdictR_isMirror r m' h.2]
       case loopback.loopback f rf =>
@@ -194,7 +194,7 @@ theorem differs_reject : ∀ (r : List SLayer) (m : List RLayer), shape r m = tr
         · exact field_reject (Or.inl ⟨beq_false_of_bne h1, rfl⟩)
         · exact field_reject (Or.inr (field_reject (Or.inl ⟨beq_false_of_bne h2, hg⟩)))
         · exact field_reject (Or.inr (field_reject (Or.inr (differs_reject r m' h.2 h3))))
-      case vlan.vlan tci t =>
+      case vlan.vlan tci tp t =>
         simp only [shape, Bool.and_eq_true] at h
         simp only [matchedFieldDiffers, Bool.or_eq_true] at hd
         simp only [verdictR]
